@@ -61,6 +61,7 @@ class C06(XsProp):
             slim = rng.choice(['300'] * 5 + [str(rng.randint(0, 3))])
             steps = ['xs limits 6000 %s - | input %s %d %d | cursor | stack' % (slim, data.hex() or '-', s, e)]
             remain_guess = e - s
+            dumped = False
             for _ in range(rng.randint(4, 25)):
                 k = rng.random()
 
@@ -106,7 +107,14 @@ class C06(XsProp):
                     op = 'close-bitstr'
                 else:
                     op = rng.choice(['big', 'little'])
+                if rng.random() < 0.08:
+                    # the inspection words of the cursor vocabulary (in the model since round 11): they print and must move nothing
+                    steps.append('eval %s | cursor | stack' % hexsrc(rng.choice(['dump', 'dump', '%s dump-at' % rng.choice(
+                        [str(rng.randint(0, tot + 8)), str(s), str(e), size()])])))
+                    dumped = True
                 steps.append('eval %s | cursor | stack' % hexsrc(op))
+            if dumped:
+                steps.append('out')
             cs.append(' | '.join(steps))
         return cs
 
@@ -206,6 +214,9 @@ class C06(XsProp):
                             bad = '`%s` disturbed the rest of the stack: %s -> %s' % (op, prev_stack, sk)
                         elif top != want:
                             bad = '`%s` returned %s, the bytes up to the terminator are %s' % (op, sk[-1], cells.fmt(want) if want[0] == 'S' else 'B' + want[1])
+                    elif word in ('dump', 'dump-at'):
+                        if cu != prev_cur or sk != prev_stack:
+                            bad = '`%s` changed the cursor or the stack: %s %s -> %s %s' % (op, prev_cur, prev_stack, cu, sk)
                     elif word == 'remain':
                         if cu != prev_cur or sk != prev_stack + ['I%x' % (end - off)]:
                             bad = '`remain` gave %s with cursor %s' % (sk[-1:], prev_cur)
